@@ -517,7 +517,12 @@ class StmtMixin:
             lines += self.block(b, '  ')
         self.cur = saved
         self.protos.append(sig + ';')
-        text = sig + '\n' + ('\n'.join(contract) + '\n' if contract else '') + '{\n' + '\n'.join(lines) + '\n}\n'
+        text = sig + '\n' + ('\n'.join(contract) + '\n' if contract else '')
+        stub = contract_stub(cname, self.ctype(rett), contract) if contract else None
+        if stub:
+            text += f'#ifdef CXX_STUB_{cname}\n{stub}#else\n' + '{\n' + '\n'.join(lines) + '\n}\n#endif\n'
+        else:
+            text += '{\n' + '\n'.join(lines) + '\n}\n'
         text += contract_macros(cname, contract)
         self.bodies.append((cname, text))
         self.stats['functions'] += 1
@@ -716,6 +721,80 @@ class StmtMixin:
 
     def e_LambdaExpr(self, n):
         raise LoweringError(f'lambda used as a value in {self.cur["name"]} (only direct calls / modelled algorithms)')
+
+
+def contract_clauses(contract):
+    import re as _re
+    txt = _re.sub(r'/\*.*?\*/', ' ', '\n'.join(contract), flags=_re.S)
+    out = {'requires': [], 'ensures': [], 'assigns': []}
+    for kind in out:
+        for m in _re.finditer(r'__CPROVER_' + kind + r'\s*\(', txt):
+            depth, i = 1, m.end()
+            while depth and i < len(txt):
+                depth += {'(': 1, ')': -1}.get(txt[i], 0)
+                i += 1
+            out[kind].append(' '.join(txt[m.end():i - 1].split()))
+    return out
+
+
+def split_top(s, sep=','):
+    out, depth, cur = [], 0, ''
+    for ch in s:
+        if ch in '([{':
+            depth += 1
+        if ch in ')]}':
+            depth -= 1
+        if ch == sep and depth == 0:
+            out.append(cur.strip())
+            cur = ''
+        else:
+            cur += ch
+    if cur.strip():
+        out.append(cur.strip())
+    return out
+
+
+def contract_stub(cname, ret_c, contract):
+    """the body that stands for a call when a group asks for -DCXX_STUB_<fn>: the contract applied the way
+    --replace-call-with-contract applies it (precondition ASSERTED, assigns targets havocked, postcondition ASSUMED), generated
+    from the verbatim clause text.  dfcc's own replacement instruments every assignment of the whole program with write-set
+    checks, which made symbolic execution of units with ~10^3 replaced calls take minutes; the stub leaves the caller's code
+    uninstrumented.  Only contracts whose assigns targets are plain lvalues are expressible; others get an #error body."""
+    import re as _re
+    c = contract_clauses(contract)
+    text = ' '.join(c['requires'] + c['ensures'] + c['assigns'])
+    bad = [k for k in ('__CPROVER_is_fresh', '__CPROVER_object_whole', '__CPROVER_object_from', '__CPROVER_object_upto',
+                       '__CPROVER_was_freed', '__CPROVER_freeable') if k in text]
+    targets = [t for a in c['assigns'] for t in split_top(a)]
+    if any(':' in t for t in targets):
+        bad.append('conditional assigns target')
+    if bad:
+        return f'{{\n#error "contract stub for {cname} is not expressible: {", ".join(bad)}"\n}}\n'
+    L = ['{']
+    conj = lambda cs: ' && '.join('(' + x + ')' for x in cs) or '1'
+    L.append(f'  __CPROVER_assert({conj(c["requires"])}, "contract stub {cname}: precondition of the replaced call");')
+    ens = conj(c['ensures'])
+    k = 0
+    while '__CPROVER_old(' in ens:
+        i = ens.index('__CPROVER_old(')
+        depth, j = 1, i + len('__CPROVER_old(')
+        while depth:
+            depth += {'(': 1, ')': -1}.get(ens[j], 0)
+            j += 1
+        e = ens[i + len('__CPROVER_old('):j - 1]
+        L.append(f'  __typeof__({e}) __old{k} = ({e});')
+        ens = ens[:i] + f'__old{k}' + ens[j:]
+        k += 1
+    for n, t in enumerate(targets):
+        L.append(f'  {{ __typeof__({t}) __h{n}; ({t}) = __h{n}; }}   /* assigns target havocked */')
+    if ret_c != 'void':
+        L.append(f'  {ret_c} __ret;   /* arbitrary */')
+        ens = _re.sub(r'\b__CPROVER_return_value\b', '__ret', ens)
+    L.append(f'  __CPROVER_assume({ens});')
+    if ret_c != 'void':
+        L.append('  return __ret;')
+    L.append('}')
+    return '\n'.join(L) + '\n'
 
 
 def contract_macros(cname, contract):
